@@ -3,9 +3,9 @@ CONSTANTS
   Procs = {p1, p2}
   Versions = {1, 2}
   Bits = {32, 64}
-  MaxSteps = 8
-  Variant = "tmplNeverRefreshed"
-  WithSv = FALSE
+  MaxSteps = 7
+  Variant = "ok"
+  WithSv = TRUE
   SvMode = "asWritten"
 INVARIANT TypeOK
 INVARIANT Coherent
